@@ -274,16 +274,26 @@ def helpers(ctx, obs):
     f = fits.func('error_band')
     key = 'fits.py:error_band#sqrt-gCg'
     apps = [c for c in walk(f) if isinstance(c, ast.Call) and isinstance(c.func, ast.Attribute) and c.func.attr == 'append' and unparse(c.func.value) == 'err']
-    if len(apps) != 1:
+    comps = [c for c in walk(f) if isinstance(c, ast.ListComp) and len(c.generators) == 1 and not c.generators[0].ifs and any(isinstance(w, ast.Name) and w.id == 'cov' for w in ast.walk(c.elt))]
+    elem, idx = None, None
+    if len(apps) == 1:
+        elem = apps[0].args[0]
+        l = fits.parents.get(fits.parents.get(apps[0]))
+        idx = unparse(l.target.elts[0]) if isinstance(l, ast.For) and isinstance(l.target, ast.Tuple) else (unparse(l.target) if isinstance(l, ast.For) and unparse(l.iter).startswith('range(len(') else None)
+    elif not apps and len(comps) == 1:
+        # the same elements written as a comprehension
+        elem = comps[0].elt
+        g_ = comps[0].generators[0]
+        idx = unparse(g_.target.elts[0]) if isinstance(g_.target, ast.Tuple) and isinstance(g_.iter, ast.Call) and call_name(g_.iter) == 'enumerate' else (
+            unparse(g_.target) if unparse(g_.iter).startswith('range(len(') else None)
+    if elem is None:
         ctx.unrec(rule, key, 'err.append not found')
     else:
         mx = MatX(fits, f, inline=False)
-        got = mx.t(apps[0].args[0])
-        l = fits.parents.get(fits.parents.get(apps[0]))
-        idx = unparse(l.target.elts[0]) if isinstance(l, ast.For) and isinstance(l.target, ast.Tuple) else None
+        got = mx.t(elem)
         g = ('idx', S('deriv'), idx)
         ok = got == ('call', 'numpy.sqrt', ('matmul', g, S('cov'), g))
-        ctx.check(rule, key, ok, 'err[i] = sqrt(g_i C g_i) with one and the same gradient', 'err element is %s' % show(got), fits.loc(apps[0]))
+        ctx.check(rule, key, ok, 'err[i] = sqrt(g_i C g_i) with one and the same gradient', 'err element is %s' % show(got), fits.loc(elem))
     cv = [s for s in statements(f) if isinstance(s, ast.Assign) and unparse(s.targets[0]) == 'cov']
     ctx.check(rule, 'fits.py:error_band#cov', len(cv) == 1 and unparse(cv[0].value) == 'covariance(%s)' % f.args.args[2].arg, 'C = covariance(beta)', 'cov = %s' % [unparse(s.value) for s in cv])
     dv = [c for c in walk(f) if isinstance(c, ast.Call) and isinstance(c.func, ast.Attribute) and c.func.attr == 'append' and unparse(c.func.value) == 'deriv']
